@@ -27,8 +27,17 @@ BACKOFF = 100
 SESSION = 6000
 REBALANCE = 2500       # < request timeout
 NODES = 3
-KINDS = ["prod", "iprod", "group", "group_manual", "group2", "simple", "simple_sub"]
-CONDS = ["healthy", "dead0", "dead1", "deadall", "failover", "coord_lost", "err16", "lose_reply"]
+KINDS = ["prod", "iprod", "group", "group_manual", "group2", "group_f", "simple", "simple_sub"]
+CONDS = ["healthy", "dead0", "dead1", "deadall", "failover", "coord_lost", "err16", "lose_reply",
+         "auth_commit", "auth_hb", "auth_fetch"]
+# a non-retriable coordination error is handed to the application, which calls stop() without polling again
+AUTH_CONDS = {"auth_commit": "OffsetCommit", "auth_hb": "Heartbeat", "auth_fetch": "OffsetFetch"}
+# start() itself raises that error (the fault is there from the beginning); stop() follows k/4 s later
+AUTHFAIL_KINDS = {"group_authfind": "FindCoordinator", "group_authjoin": "JoinGroup"}
+# the member's next SyncGroup is answered with this code; stop() is called k trace events after that reply,
+# i.e. before the member has re-joined
+SYNC_CONDS = {"sync27": 27, "sync16": 16, "sync15": 15}
+GROUP_AUTHORIZATION_FAILED = 30
 
 
 def make_client(env, kind, cid):
@@ -39,7 +48,7 @@ def make_client(env, kind, cid):
     if kind == "iprod":
         return K.AIOKafkaProducer(bootstrap_servers=BOOT, client_id=cid, request_timeout_ms=RT, linger_ms=5,
                                   retry_backoff_ms=BACKOFF, enable_idempotence=True, metadata_max_age_ms=2000)
-    if kind in ("group", "group2", "group_manual"):
+    if kind in ("group", "group2", "group_manual", "group_f") or kind in AUTHFAIL_KINDS:
         return K.AIOKafkaConsumer(
             "t", bootstrap_servers=BOOT, client_id=cid, group_id="g", auto_offset_reset="earliest",
             enable_auto_commit=(kind != "group_manual"),
@@ -60,7 +69,7 @@ def is_producer(kind):
 
 
 def is_group(kind):
-    return kind in ("group", "group2", "group_manual")
+    return kind in ("group", "group2", "group_manual", "group_f") or kind in AUTHFAIL_KINDS
 
 
 def apply_cond(cond, cluster, S, cid):
@@ -85,6 +94,10 @@ def apply_cond(cond, cluster, S, cid):
         cluster.faults.add(S.Fault("error", api="Produce", code=6, client=cid))
     elif cond == "lose_reply":
         cluster.faults.add(S.Fault("lose_reply", client=cid, count=2))
+    elif cond in AUTH_CONDS:
+        cluster.faults.add(S.Fault("error", api=AUTH_CONDS[cond], code=GROUP_AUTHORIZATION_FAILED, client=cid, count=None))
+    elif cond in SYNC_CONDS:
+        pass            # installed when start() has returned, see scenario()
     else:
         raise HarnessError(cond)
 
@@ -116,7 +129,7 @@ async def workload(env, kind, cl, cluster, aux, user):
     started2 = False
     n = 0
     while cluster.now() < t_end:
-        if kind == "group2" and not started2 and cluster.now() > t_end - 2.4:
+        if kind in ("group2", "group_f") and not started2 and cluster.now() > t_end - 2.4:
             started2 = True
             c2 = make_client(env, "group", "aux")
             aux["client"] = c2
@@ -156,13 +169,34 @@ async def scenario(env, cluster, kind, cond, k, delta, out):
         for i in range(30):
             await p.send("t", b"x%d" % i, partition=i % 3, timestamp_ms=S.now_ms())
         await p.stop()
+    aux, user = {}, {}
+    if kind == "group_f":
+        # another member is there first (and leads the group): the client under test is a follower
+        OWNER.set("aux0")
+        aux["client0"] = make_client(env, "group", "aux0")
+        await aux["client0"].start()
+        OWNER.set("pre")
+    if kind in AUTHFAIL_KINDS:
+        cluster.faults.add(S.Fault("error", api=AUTHFAIL_KINDS[kind], code=GROUP_AUTHORIZATION_FAILED, client=cid, count=None))
     trig = asyncio.Event()
-    st = {"base": None, "cond": False}
+    st = {"base": None, "cond": False, "hit": None}
     orig_ev = cluster._ev
+    sync_code = SYNC_CONDS.get(cond)
 
     def ev(name, **kw):
         orig_ev(name, **kw)
         if k is None or st["base"] is None:
+            return
+        if sync_code is not None:
+            if st["hit"] is None:
+                if (name == "reply" and kw.get("api") == "SyncGroup" and kw.get("client") == cid
+                        and (kw.get("fields") or {}).get("error_code") == sync_code):
+                    st["hit"] = len(cluster.trace)
+                    loop.call_later(2.0, trig.set, context=contextvars.Context())
+                else:
+                    return
+            if len(cluster.trace) - st["hit"] >= k:
+                trig.set()
             return
         n = len(cluster.trace) - st["base"]
         if not st["cond"] and n >= k - delta:
@@ -174,7 +208,6 @@ async def scenario(env, cluster, kind, cond, k, delta, out):
         if n >= k:
             trig.set()
     cluster._ev = ev
-    aux, user = {}, {}
     harness_tasks = []
     box = {}
 
@@ -182,10 +215,18 @@ async def scenario(env, cluster, kind, cond, k, delta, out):
         OWNER.set(cid)
         cl = box["cl"] = make_client(env, kind, cid)
         try:
-            await cl.start()
+            try:
+                await cl.start()
+            except env.errors.KafkaError as e:
+                box["start_failed"] = type(e).__name__
+                out["work"] = "start-raised:" + type(e).__name__
+                return
             st["base"] = len(cluster.trace)
             box["started"] = True
-            if k == 0:
+            if sync_code is not None:
+                st["cond"] = True
+                cluster.faults.add(S.Fault("error", api="SyncGroup", code=sync_code, client=cid))
+            elif k == 0:
                 st["cond"] = True
                 loop.call_soon(apply_cond, cond, cluster, S, cid)
                 trig.set()
@@ -202,9 +243,31 @@ async def scenario(env, cluster, kind, cond, k, delta, out):
     await asyncio.wait([wt, tw], return_when=asyncio.FIRST_COMPLETED)
     tw.cancel()
     cl = box.get("cl")
-    if not box.get("started"):
+    if box.get("start_failed"):
+        # the usual `try: await consumer.start() ... finally: await consumer.stop()`: no further poll
+        out["start_failed"] = box["start_failed"]
+        st["base"] = len(cluster.trace)
+        st["cond"] = True
+        if k:
+            await asyncio.sleep(0.25 * k)
+    elif not box.get("started"):
         out["skip"] = "start() did not return"
         wt.cancel()
+        cluster._ev = orig_ev
+        return
+    if sync_code is not None and st["hit"] is None:
+        out["skip"] = "no SyncGroup of the member was answered with the injected code"
+        wt.cancel()
+        for c0 in (aux.get("client0"), aux.get("client")):
+            if c0 is not None:
+                try:
+                    await asyncio.wait_for(c0.stop(), 60)
+                except (Exception, asyncio.CancelledError):  # noqa: BLE001
+                    pass
+        try:
+            await asyncio.wait_for(cl.stop(), 60)
+        except (Exception, asyncio.CancelledError):  # noqa: BLE001
+            pass
         cluster._ev = orig_ev
         return
     out["events"] = len(cluster.trace) - st["base"]
@@ -226,7 +289,11 @@ async def scenario(env, cluster, kind, cond, k, delta, out):
         if not is_group(kind) or n is None or not isinstance(n, int) or not (0 <= n < NODES):
             return False
         node = cluster.nodes[n]
-        return (node.up and cluster.coordinator_for("group", "g") == n and out.get("generation_at_stop", -1) > 0
+        # judged against the coordinator's member table (member_before / member_after), not against
+        # what the client believes its generation is
+        # (an injected NOT_COORDINATOR / COORDINATOR_NOT_AVAILABLE tells the member that this node is not
+        # its coordinator: it may not look for another one while closing, so nothing is owed then)
+        return (node.up and cluster.coordinator_for("group", "g") == n and SYNC_CONDS.get(cond) not in (15, 16)
                 and not any(c.blackholed for c in node.conns if c.client_id == cid) and not cluster.faults.active)
     reach0 = coord_ok()
     if is_group(kind):
@@ -320,12 +387,12 @@ async def scenario(env, cluster, kind, cond, k, delta, out):
             await t
         except (Exception, asyncio.CancelledError):  # noqa: BLE001
             pass
-    c2 = aux.get("client")
-    if c2 is not None:
-        try:
-            await asyncio.wait_for(c2.stop(), 60)
-        except (Exception, asyncio.CancelledError):  # noqa: BLE001
-            pass
+    for c2 in (aux.get("client"), aux.get("client0")):
+        if c2 is not None:
+            try:
+                await asyncio.wait_for(c2.stop(), 60)
+            except (Exception, asyncio.CancelledError):  # noqa: BLE001
+                pass
 
 
 def run_one(env, kind, cond, k, delta, seed, max_vt=240.0):
@@ -428,16 +495,28 @@ def run(ctx):
         seeds = [ctx.seed, ctx.seed + 100] if ctx.thorough else [ctx.seed]
         for seed in seeds:
             if seed != ctx.seed:
-                step = 3
+                step = 4
+            for kind in AUTHFAIL_KINDS:
+                for j in range(0, 3):
+                    plan.append((kind, "healthy", j, 0, seed))
             for kind in KINDS:
                 base, _ = run_one(env, kind, "healthy", None, 0, seed)
                 n = base.get("events", 0)
                 ctx.coverage.setdefault("events_per_workload", {})[f"{kind}/{seed}"] = n
                 runs.append(base)
+                if is_group(kind) and kind in ("group2", "group_f"):
+                    for cond in SYNC_CONDS:
+                        for j in range(0, 8):
+                            plan.append((kind, cond, j, 0, seed))
                 for cond in CONDS:
                     if cond in ("coord_lost", "err16") and not is_group(kind) and not is_producer(kind):
                         continue
-                    for delta in deltas:
+                    if cond in AUTH_CONDS and not is_group(kind):
+                        continue
+                    if kind == "group_f" and cond not in ("healthy", "dead0", "deadall", "failover", "auth_commit"):
+                        continue        # the follower differs from `group2` only in who leads the group
+                    # a pushed error must be there before stop() is called
+                    for delta in ((6, 12) if ctx.thorough else (6,)) if cond in AUTH_CONDS else deltas:
                         for k in range((seed + delta) % step, n + 1, step):
                             plan.append((kind, cond, k, delta, seed))
     lines, line_of = [], []
